@@ -260,4 +260,20 @@ theorem c03_reserved_id_pred :
   rw [Bool.and_eq_false_iff]; right
   rw [c03_reserved_id_model.2.1]; decide
 
+/-- the region is exact: on EVERY well-formed image with a reserved id the header is reported to
+    end before the end of the extension block, so sentence (1) fails there (and, by
+    `c03_accepts_partial`, nowhere else) -/
+theorem c03_reserved_region_offset (w : Wire) (hw : w.WF = true) (hr : w.reserved = true) (r : Header) :
+    ∃ n, hdrUnmarshal r w.encode = .ok (hdrOf r w, n) ∧ n < w.extEnd := by
+  obtain ⟨h1, h2⟩ := wireUnread_reserved w hw hr
+  exact ⟨_, hdrUnmarshal_encode w r (wireOk_of_WF w hw), by omega⟩
+
+theorem c03_reserved_region_fails (w : Wire) (hw : w.WF = true) (hr : w.reserved = true) :
+    Pred.C03.acceptsOK w (Pred.C03.modelObs w.encode) = false := by
+  obtain ⟨n, h1, h2⟩ := c03_reserved_region_offset w hw hr {}
+  simp only [Pred.C03.acceptsOK, Pred.C03.modelObs, h1, Res.map, Res.coarse]
+  rw [Bool.and_eq_false_iff]; right
+  rw [beq_eq_false_iff_ne]
+  intro h; injection h with h; omega
+
 end Rtp.Props.C03
